@@ -104,7 +104,18 @@ def date_getters(ctx, kind, which):
     m = ctx.int("m", 1, 12)
     d = ctx.int("d", 1, 31)
     ctx.assume(d <= cal.days_in_month(y, m))
-    x = P.Date(y, m, d) if kind == "date" else P.DateTime(y, m, d, 12, 30, 15, tzinfo=P.UTC)
+    if kind == "zone":
+        from props.common import make_zone, resolve_wall
+        h = ctx.int("h", 0, 23); mi = ctx.int("mi", 0, 59)
+        tz, Ts, offs = make_zone(ctx, "Verif/A", cal.ymd2ord(y, m, d))
+        w = cal.ymd2ord(y, m, d) * 86400 + h * 3600 + mi * 60
+        fold = ctx.int("fold", 0, 1)
+        _, _, nvalid = resolve_wall(w, Ts, offs, fold == 1)
+        ctx.assume(nvalid >= 1)
+        ctx.assume(IMPLIES(nvalid == 1, fold == 0))
+        x = P.DateTime(y, m, d, h, mi, 0, 0, tzinfo=tz, fold=fold)
+    else:
+        x = P.Date(y, m, d) if kind == "date" else P.DateTime(y, m, d, 12, 30, 15, tzinfo=P.UTC)
     o = cal.ymd2ord(y, m, d)
     if which == "day_of_week":
         dow = x.day_of_week
@@ -189,4 +200,9 @@ def cases(tier):
         dict(name=f"{kind} {g}", fn=date_getters, params=dict(kind=kind, which=g),
              bounds="every valid date in years 1..9999" + (" as a UTC DateTime" if kind == "datetime" else ""))
         for kind in ("date", "datetime") for g in GETTERS
+    ] + [
+        dict(name=f"zone {g}", fn=date_getters, params=dict(kind="zone", which=g),
+             bounds="every valid DateTime (whole minutes, both folds) in years 1..9999 in a zone with one transition anywhere "
+                    "within +-400 days, any offsets")
+        for g in ("day_of_year", "day_of_week", "week_of_year", "days_in_month", "quarter")
     ]
